@@ -21,6 +21,9 @@ Section Remove.
   Notation asc := (@asc elt rank).
   Notation mono := (@monotone elt).
   Notation PK := (PK L I).
+  Notation set_remove := (@set_remove elt).
+  Notation set_find := (@set_find elt).
+  Notation del_rank := (@del_rank elt).
   (* lemmas of the sibling files take the section context first *)
   Notation B3 f := (f elt rank dflt) (only parsing).
   Notation B7 f := (f elt rank dflt L I HI HI3) (only parsing).
@@ -633,5 +636,194 @@ Section Remove.
           rewrite <- Eel in Hasc.
           destruct (child_pre h _ _ i' HP1 Hi' Hasc Hmin) as (Hk1 & Ha1 & Hs1).
           apply rd_post_lift; auto.
+  Qed.
+
+  (* ---------------------------------------------------------------- remove: the pre-loop root merge *)
+  Definition pre_root (n : node) : node :=
+    if negb (is_leaf n) && (n_vals n =? 1) && negb (can_remove_from L I (child n 0))
+       && negb (can_remove_from L I (child n 1))
+    then child (merge dflt n 0) 0 else n.
+
+  Lemma remove_unfold : forall (t : tree) e,
+    remove rank dflt L I t e =
+    let r := remove_down rank dflt L I (height (pre_root (root t))) (pre_root (root t)) e in
+    (rr_st r, rr_out r,
+     mkTree (rr_node r) (match rr_st r with SUCCESS => Z.pred (size t) | _ => size t end),
+     match rr_act r with
+     | AReset => IEnd
+     | AKeep => IAt (rr_frames r)
+     | AIncr => snd (iter_increment (rr_node r) (IAt (rr_frames r)))
+     end, rr_log r).
+  Proof. reflexivity. Qed.
+
+  Lemma pre_root_spec : forall h (n : node), root_ok L I h n -> asc (elements n) ->
+    exists h0, kids_ok L I h0 (pre_root n) /\ n_vals (pre_root n) <= max_vals L I (pre_root n) /\
+               strong (pre_root n) /\ elements (pre_root n) = elements n.
+  Proof.
+    intros h n (Hk & Hmax & Hmin) Hasc. unfold pre_root.
+    destruct (negb (is_leaf n) && (n_vals n =? 1) && negb (can_remove_from L I (child n 0))
+              && negb (can_remove_from L I (child n 1))) eqn:E.
+    - apply andb_true_iff in E as [E E3]. apply andb_true_iff in E as [E E2]. apply andb_true_iff in E as [E0 E1].
+      destruct n as [vs|vs cs]; [discriminate|].
+      apply Nat.eqb_eq in E1. apply negb_true_iff in E2, E3.
+      unfold child in *. cbn [children] in *. unfold n_vals in E1. cbn [vals] in E1.
+      destruct h as [|h]; [exact (False_ind _ Hk)|]. cbn [kids_ok] in Hk. destruct Hk as (Hh & Hl & Hf).
+      assert (HP : PK h vs cs) by (split; assumption).
+      pose proof (B7 PK_child h vs cs 0 HP ltac:(lia)) as W0.
+      pose proof (B7 PK_child h vs cs 1 HP ltac:(lia)) as W1.
+      destruct (B7 merge_spec h vs cs 0 HP ltac:(lia) (can_remove_false h _ W0 E2) (can_remove_false h _ W1 E3))
+        as (m & Em & Wm & Nm & Eem).
+      rewrite Em. cbn [children]. rewrite (B7 nth_aerase_lt) by lia. rewrite nth_aset_eq by lia.
+      exists h. split; [apply (B7 wfn_kids_ok); assumption|].
+      split; [apply (wfn_bounds h); assumption|].
+      split; [eapply strong_of_min; eauto|].
+      rewrite Eem. rewrite (B7 elements_split2 vs cs 0) by lia.
+      rewrite (B3 pre_0), (B3 post_end) by lia. rewrite app_nil_r. reflexivity.
+    - exists h. split; [assumption|]. split; [assumption|]. split; [|reflexivity].
+      destruct n as [vs|vs cs]; cbn [strong]; auto.
+      specialize (Hmin eq_refl). unfold n_vals, child in *. cbn [vals children is_leaf negb andb] in *.
+      destruct (Nat.eq_dec (length vs) 1) as [E1|E1]; [right|left; lia]. split; [assumption|].
+      rewrite E1 in E. cbn [Nat.eqb andb] in E.
+      destruct (can_remove_from L I (nth 0 cs dnode)), (can_remove_from L I (nth 1 cs dnode)); auto.
+  Qed.
+
+  Lemma remove_top : forall (t : tree) e, Inv rank L I t ->
+    exists r h0 n0,
+      remove rank dflt L I t e =
+      (rr_st r, rr_out r,
+       mkTree (rr_node r) (match rr_st r with SUCCESS => Z.pred (size t) | _ => size t end),
+       match rr_act r with
+       | AReset => IEnd
+       | AKeep => IAt (rr_frames r)
+       | AIncr => snd (iter_increment (rr_node r) (IAt (rr_frames r)))
+       end, rr_log r) /\
+      elements n0 = elements (root t) /\ rd_post h0 n0 e r /\ root_ok L I h0 (rr_node r).
+  Proof.
+    intros t e ([h Hr] & Hasc & Hsize).
+    destruct (pre_root_spec h (root t) Hr Hasc) as (h0 & Hk0 & Hmax0 & Hs0 & Eel0).
+    rewrite remove_unfold. cbv zeta. rewrite (B7 kids_ok_height h0 _ Hk0).
+    exists (remove_down rank dflt L I h0 (pre_root (root t)) e), h0, (pre_root (root t)).
+    split; [reflexivity|]. split; [assumption|].
+    rewrite <- Eel0 in Hasc.
+    pose proof (remove_down_spec h0 _ e Hk0 Hasc Hs0) as Hpost. split; [assumption|].
+    destruct Hpost as (Hk & Hnv & Hleaf & _).
+    destruct (same_kind h0 _ _ Hk Hk0) as (_ & Emax & _).
+    split; [assumption|]. split; [lia|assumption].
+  Qed.
+
+  (* ---------------------------------------------------------------- the sorted-list spec on l1 ++ x :: l2 *)
+  Lemma find_none_all : forall (f : elt -> bool) l, (forall a, In a l -> f a = false) -> List.find f l = None.
+  Proof.
+    intros f. induction l as [|a l IH]; intros H; cbn [List.find]; auto.
+    rewrite (H a (or_introl eq_refl)). apply IH. intros b Hb. apply H. right. assumption.
+  Qed.
+
+  Lemma find_app_skip : forall (f : elt -> bool) l1 l, (forall a, In a l1 -> f a = false) ->
+    List.find f (l1 ++ l) = List.find f l.
+  Proof.
+    intros f. induction l1 as [|a l1 IH]; intros l H; cbn [List.find app]; auto.
+    rewrite (H a (or_introl eq_refl)). apply IH. intros b Hb. apply H. right. assumption.
+  Qed.
+
+  Lemma filter_all_true : forall (f : elt -> bool) l, (forall a, In a l -> f a = true) -> filter f l = l.
+  Proof.
+    intros f. induction l as [|a l IH]; intros H; cbn [filter]; auto.
+    rewrite (H a (or_introl eq_refl)). f_equal. apply IH. intros b Hb. apply H. right. assumption.
+  Qed.
+
+  Lemma filter_all_false : forall (f : elt -> bool) l, (forall a, In a l -> f a = false) -> filter f l = [].
+  Proof.
+    intros f. induction l as [|a l IH]; intros H; cbn [filter]; auto.
+    rewrite (H a (or_introl eq_refl)). apply IH. intros b Hb. apply H. right. assumption.
+  Qed.
+
+  Lemma set_remove_mid : forall l1 x l2 k, asc (l1 ++ x :: l2) -> rank x = k ->
+    set_remove rank (l1 ++ x :: l2) k = (SUCCESS, Some x, l1 ++ l2).
+  Proof.
+    intros l1 x l2 k Ha Hk. apply (B3 asc_mid) in Ha as (_ & _ & H1 & H2 & _).
+    unfold BTreeSpec.set_remove, BTreeSpec.set_find, BTreeSpec.del_rank.
+    rewrite find_app_skip by (intros a Ha; specialize (H1 a Ha); lia).
+    cbn [List.find]. replace (rank x =? k)%Z with true by lia.
+    rewrite filter_app. cbn [filter]. replace (rank x =? k)%Z with true by lia. cbn [negb].
+    rewrite !filter_all_true; auto.
+    - intros a Ha. specialize (H2 a Ha). lia.
+    - intros a Ha. specialize (H1 a Ha). lia.
+  Qed.
+
+  Lemma set_remove_none : forall l k, (forall y, In y l -> rank y <> k) ->
+    set_remove rank l k = (NOT_FOUND, None, l).
+  Proof.
+    intros l k H. unfold BTreeSpec.set_remove, BTreeSpec.set_find.
+    rewrite find_none_all; auto. intros a Ha. specialize (H a Ha). lia.
+  Qed.
+
+  Lemma filter_lt_mid : forall l1 x l2 k, asc (l1 ++ x :: l2) -> rank x = k ->
+    filter (fun y => (rank y <? k)%Z) (l1 ++ l2) = l1.
+  Proof.
+    intros l1 x l2 k Ha Hk. apply (B3 asc_mid) in Ha as (_ & _ & H1 & H2 & _).
+    rewrite filter_app. rewrite filter_all_true, filter_all_false.
+    - apply app_nil_r.
+    - intros a Ha. specialize (H2 a Ha). lia.
+    - intros a Ha. specialize (H1 a Ha). lia.
+  Qed.
+
+  Lemma asc_remove_mid : forall l1 x l2, asc (l1 ++ x :: l2) -> asc (l1 ++ l2).
+  Proof.
+    intros l1 x l2 Ha. apply (B3 asc_mid) in Ha as (A1 & A2 & _ & _ & A3). apply (B3 asc_app). auto.
+  Qed.
+
+  (* ---------------------------------------------------------------- the two theorems *)
+  Theorem remove_refines : forall t e, Inv rank L I t ->
+    let '(st, out, t', it, lg) := remove rank dflt L I t e in
+    Inv rank L I t' /\
+    (st, out, elements (root t')) = set_remove rank (elements (root t)) (rank e) /\
+    (forall x, In x lg -> In x (elements (root t))).
+  Proof.
+    intros t e HInv. destruct (remove_top t e HInv) as (r & h0 & n0 & Erm & Eel0 & Hpost & Hroot).
+    destruct HInv as (_ & Hasc & Hsize).
+    rewrite Erm. cbv beta iota. destruct Hpost as (_ & _ & _ & Hlog & Hcase). rewrite Eel0 in *.
+    split; [|split; [|exact Hlog]].
+    - unfold Inv. cbn [root size]. split; [exists h0; assumption|].
+      destruct Hcase as [(Est & x & l1 & l2 & Eout & Erk & Ec & Ec' & _)|(Est & Eout & Ec' & Hno)].
+      + rewrite Est, Ec'. rewrite Ec in Hasc, Hsize. split; [eapply asc_remove_mid; eauto|].
+        rewrite app_length in *. cbn [length] in Hsize. lia.
+      + rewrite Est, Ec'. split; assumption.
+    - cbn [root].
+      destruct Hcase as [(Est & x & l1 & l2 & Eout & Erk & Ec & Ec' & _)|(Est & Eout & Ec' & Hno)].
+      + rewrite Est, Eout, Ec', Ec. rewrite Ec in Hasc. symmetry. apply set_remove_mid; assumption.
+      + rewrite Est, Eout, Ec'. symmetry. apply set_remove_none. assumption.
+  Qed.
+
+  Theorem remove_next : forall t e, Inv rank L I t ->
+    let '(st, out, t', it, lg) := remove rank dflt L I t e in
+    st = SUCCESS ->
+    iter_valid (root t') it /\
+    iter_pos (root t') it =
+      (let k := length (filter (fun x => (rank x <? rank e)%Z) (elements (root t'))) in
+       if k <? length (elements (root t')) then Some k else None).
+  Proof.
+    intros t e HInv. destruct (remove_top t e HInv) as (r & h0 & n0 & Erm & Eel0 & Hpost & Hroot).
+    destruct HInv as (_ & Hasc & Hsize).
+    rewrite Erm. cbv beta iota zeta. cbn [root]. destruct Hpost as (_ & _ & _ & _ & Hcase). rewrite Eel0 in *.
+    intros Est.
+    destruct Hcase as [(_ & x & l1 & l2 & Eout & Erk & Ec & Ec' & Hact)|(Est' & _)]; [|congruence].
+    assert (Hsh : shape_ok L I (rr_node r)) by (exists h0; assumption).
+    rewrite Ec in Hasc. rewrite Ec'. rewrite (filter_lt_mid l1 x l2 (rank e) Hasc Erk).
+    destruct (rr_act r).
+    - cbn [iter_valid iter_pos]. split; [exact Logic.I|]. rewrite Ec' in Hact.
+      apply app_eq_nil in Hact as [-> ->]. reflexivity.
+    - destruct Hact as [Hv Hp]. cbn [iter_valid iter_pos]. split; [assumption|].
+      destruct (B7 get_pos _ _ Hsh Hv) as [Hlt _]. rewrite Ec', Hp in Hlt.
+      rewrite Hp. replace (length l1 <? length (l1 ++ l2)) with true by (symmetry; apply Nat.ltb_lt; assumption).
+      reflexivity.
+    - destruct Hact as [Hv Hp].
+      pose proof (B7 increment_pos _ _ Hsh Hv) as Hinc.
+      destruct (iter_increment (rr_node r) (IAt (rr_frames r))) as [st' [|q]]; cbn [snd iter_valid iter_pos].
+      + destruct Hinc as [_ Hinc]. split; [exact Logic.I|]. rewrite Ec' in Hinc.
+        replace (length l1 <? length (l1 ++ l2)) with false by (symmetry; apply Nat.ltb_ge; lia). reflexivity.
+      + destruct Hinc as (_ & Hvq & Hpq). split; [assumption|].
+        destruct (B7 get_pos _ _ Hsh Hvq) as [Hlt _]. rewrite Ec' in Hlt.
+        replace (length l1 <? length (l1 ++ l2)) with true by (symmetry; apply Nat.ltb_lt; lia).
+        f_equal. lia.
   Qed.
 End Remove.
